@@ -2265,6 +2265,65 @@ def site_recovery_expired_winners(fns):
     return ob.result(it)
 
 
+# ============================================================================ range queries
+def site_range_query(fns):
+    f = mir.find(fns, "::range_query", "src/core/store/range.rs")
+    ob = Ob("site_range_query_iteration", "range_query, one arbitrary iteration of its scan loop (state havocked at the loop header): a pair is appended only after "
+            "the checks `results.len() >= limit` and `key > end_key` of THIS iteration both said no; the appended pair is (this entry's key, the value resolved for the "
+            "record loaded from this entry's slot under the epoch guard); the record reference is not used after the guard is repinned; every path that continues "
+            "moves the cursor to entry.next(); the scan starts at lower_bound(Included(start_key))", "one arbitrary iteration; skiplist order trusted", f)
+    hdr = main_loop_header(f)
+    if hdr is None:
+        raise mir.MirError("scan loop not found")
+    PQ = PURE + ("Entry::key", "Entry::value", "TreeSlot::load", "::resolve_value_ref")
+    it = Interp(f, loop_bound=1, pure=PQ, max_paths=4000)
+    limit = z3.BitVec("limit", 64)
+
+    def init(it_, st):
+        st["env"]["_4"] = limit
+    pushed = 0
+    for p in it.run(init, start=hdr, stop=(hdr,)):
+        ob.paths += 1
+        if p.status not in ("backedge", "return"):
+            continue
+        push = events(p, "Vec::push")
+        ln = events(p, "Vec::len")
+        gt = [e for e in p.events if e.kind == "call" and getattr(e, "raw", "").endswith("as PartialOrd>::gt")]
+        rv = events(p, "::resolve_value_ref")
+        ld = events(p, "TreeSlot::load")
+        rp = events(p, "Guard::repin")
+        nx = [e for e in p.events if e.kind == "call" and e.callee.endswith("Entry::next")]
+        if p.status == "backedge":
+            ob.must_hold(len(nx) == 1, "a continuing iteration advances the cursor exactly once (entry.next())")
+        for e in rv:
+            ob.must_hold(bool(ld) and idx_of(p, ld[-1]) < idx_of(p, e), "the value is resolved for a record loaded from the slot in this iteration")
+            if ld:
+                ob.need(it, p.pc, it.as_u(e.args[2]) == it.as_u(ld[-1].ret), "resolve_value_ref gets the record just loaded under the guard")
+            for r_ in rp:
+                ob.must_hold(idx_of(p, e) < idx_of(p, r_), "the guard is repinned only after the record reference has been used")
+        if push:
+            pushed += 1
+            ob.must_hold(bool(ln) and bool(gt), "limit and upper bound are checked in the iteration that appends")
+            if ln:
+                ob.need(it, push[0].pc, z3.ULT(ln[0].ret, limit), "a pair is appended only while results.len() < limit")
+            if gt:
+                ob.need(it, push[0].pc, z3.Not(gt[0].ret), "a pair is appended only when key <= end_key")
+            t = push[0].args[1]
+            ob.must_hold(isinstance(t, mir.Tup) and len(t.fields) == 2, "a (key, value) pair is appended")
+            if isinstance(t, mir.Tup) and rv:
+                keys = events(p, "Entry::key")
+                ob.must_hold(bool(keys) and any(z3.eq(z3.simplify(it.as_u(t.fields[0])), z3.simplify(it.as_u(k.ret))) for k in keys),
+                             "the appended key is this entry's key")
+                ob.must_hold(contains(t.fields[1], it.as_u(rv[0].ret)), "the appended value is the one resolved for this entry")
+    ob.must_hold(pushed >= 1, "the append site was reached")
+    ob.must_hold(re.search(r"lower_bound::<\[u8\]>", f.text) is not None and "Bound::<&[u8]>::Included" in f.text, "the scan starts at lower_bound(Included(start_key))")
+    return ob.result(it)
+
+
+def c14(fns, tier, env):
+    return finalize([site_range_query(fns), site_update_ttl(fns)], env)
+
+
 # ============================================================================ TTL sweeper
 def site_sweeper(fns):
     f = mir.find(fns, "::sample_and_expire_batch", None)
